@@ -95,7 +95,27 @@ def while_class(w, fnode):
     return None, "neither a bounded counter (V1) nor an exit on no-progress (V2): termination is not established"
 
 
+def _is_len_of(expr, name):
+    for n in ast.walk(expr):
+        if isinstance(n, ast.Call) and c01.callname(n) == "len" and n.args and isinstance(n.args[0], ast.Name) \
+                and n.args[0].id == name:
+            return True
+    return False
+
+
+def avail_names_early(tc):
+    out = set()
+    for n in ast.walk(tc.node):
+        if isinstance(n, ast.Return) and isinstance(n.value, ast.Tuple) and len(n.value.elts) == 3 \
+                and isinstance(n.value.elts[2], ast.Name):
+            out.add(n.value.elts[2].id)
+    return out
+
+
 def run(p, report, tier):
+    report.rule("R7.6", "in the candidates x annotators case split, a size expression uses len(candidates) exactly on "
+                "the paths where candidates are given and never len(X) there (path facts decide which case a "
+                "statement belongs to)", floor=6)
     report.rule("R7.1", "both base-class methods (_validate_data, _transform_cand_annot) definitely assign their "
                 "results on every feasible combination of candidates (None/1-d/2-d) x annotators (None/1-d/2-d), and "
                 "the batch size is clipped to the number of candidate pairs", floor=4)
@@ -135,6 +155,50 @@ def run(p, report, tier):
     need = {"candidates is None", "annotators is None", "annotators.ndim == 1"}
     report.add("R7.1", "MultiAnnotatorPoolQueryStrategy", "siblings split on the same atoms", f"{vd.file}:{vd.node.lineno}",
                need <= a1 and need <= a2, detail=f"_validate_data: {sorted(a1)}; _transform_cand_annot: {sorted(a2)}")
+    # ---------------- R7.6 case consistency of size expressions
+    report_rule = "R7.6"
+    xname = vd.params()[1] if len(vd.params()) > 1 else "X"
+
+    class SizeCases(MustAnalysis):
+        def __init__(self, fnode, targets):
+            super().__init__(fnode)
+            self.targets = targets
+            self.seen = []
+
+        def _apply(self, stmt, states, pseudo=None):
+            if pseudo is None and isinstance(stmt, ast.Assign) and any(
+                    isinstance(t, ast.Name) and t.id in self.targets for t in stmt.targets):
+                for st in states:
+                    self.seen.append((stmt, st.facts))
+            return super()._apply(stmt, states, pseudo)
+    from ..paths import Const
+    for fn, targets in ((vd, {"n_candidate_pairs"}), (tc, avail_names_early(tc))):
+        clipn = None
+        if fn is vd:
+            # the clip bound: the name compared with batch_size in the clip
+            for n in ast.walk(fn.node):
+                if isinstance(n, ast.If) and isinstance(n.test, ast.Compare) and "batch_size" in names_in(n.test):
+                    others = [x for x in names_in(n.test) if x != "batch_size"]
+                    if others:
+                        clipn = others[0]
+            targets = {clipn} if clipn else targets
+        sc = SizeCases(fn.node, targets).run()
+        judged = set()
+        for stmt, facts in sc.seen:
+            cand_none = facts.allowed.get("candidates") == frozenset([Const(None)])
+            cand_given = Const(None) in facts.excluded.get("candidates", frozenset())
+            ns = names_in(stmt.value)
+            bad = None
+            if cand_given and xname in ns and "candidates" not in ns and _is_len_of(stmt.value, xname):
+                bad = f"candidates are given on this path but the size is taken from len({xname})"
+            if cand_none and _is_len_of(stmt.value, "candidates"):
+                bad = "candidates is None on this path but len(candidates) is used"
+            key = (id(stmt))
+            if key in judged and bad is None:
+                continue
+            judged.add(key)
+            report.add(report_rule, fn.qual, f"size expression `{norm_stmt(stmt, 70)}`", f"{fn.file}:{stmt.lineno}",
+                       bad is None, detail=bad or "sample factor agrees with the candidates case of its branch")
     # ---------------- R7.2
     avail_names = set()
     for n in ast.walk(tc.node):
